@@ -296,8 +296,15 @@ func main() {
 			cls := "wrong-completion"
 			if strings.Contains(pr.Bad, "were lost") {
 				cls = "response-lost"
+			} else if strings.HasPrefix(pr.Bad, "registry lock deadlock") {
+				cls = "registry-lock-deadlock"
 			}
 			run.Violation("C01:prompt-reply:adapter:"+cls, pr.Bad, pr.Witness)
+			if cls == "registry-lock-deadlock" {
+				// every further trial would park its callers on the same lock
+				run.Set("trials_after_the_prompt_reply_trial", "not run: a registry lock deadlock was established, every further trial would end the same way after its own watchdog")
+				os.Exit(run.Finish())
+			}
 		case pr.Inconclusive != "":
 			run.Inconclusive("prompt-reply trial: " + pr.Inconclusive)
 		default:
